@@ -20,13 +20,17 @@ CookedItems == { C(v) : v \in PlainChars \ {BS} }
      \cup { [k |-> "s", v |-> v] : v \in {110, BS, DQ, SQ, 116} }
      \cup { [k |-> "x", v |-> v] : v \in {65, 233, 1} }
      \cup { [k |-> "o", v |-> v] : v \in {65, 1, 255} }
+\* plain text that reads like the tail of an escape sequence: after an escaped backslash it is just text ("\\x41" is the four characters \x41)
+Words == << <<120, 52, 49>>, <<117, 48, 48, 52, 49>>, <<49, 48, 49>>, <<85, 48, 48, 48, 48, 48, 48, 52, 49>> >>        \* x41  u0041  101  U00000041
+WordItems == { [k |-> "w", v |-> j] : j \in 1..Len(Words) }
 UItems == { [k |-> "u", v |-> v] : v \in {233, 65535} } \cup { [k |-> "U", v |-> 128049] }
 RawItems == { C(v) : v \in PlainChars }
 \* style: [b, r, q] q in {"d","s","td","ts"}
-Alphabet(st) == IF st.r THEN RawItems ELSE IF st.b THEN CookedItems ELSE CookedItems \cup UItems
+Alphabet(st) == IF st.r THEN RawItems \cup WordItems ELSE IF st.b THEN CookedItems \cup WordItems ELSE CookedItems \cup UItems \cup WordItems
 QuoteChar(st) == IF st.q \in {"d", "td"} THEN DQ ELSE SQ
 Triple(st) == st.q \in {"td", "ts"}
 ItemText(it) == CASE it.k = "c" -> <<it.v>>
+                  [] it.k = "w" -> Words[it.v]
                   [] it.k = "s" -> <<BS, it.v>>
                   [] it.k = "x" -> <<BS, 120>> \o Hex2(it.v)
                   [] it.k = "o" -> <<BS>> \o Oct3(it.v)
@@ -34,6 +38,7 @@ ItemText(it) == CASE it.k = "c" -> <<it.v>>
                   [] it.k = "U" -> <<BS, 85, 48, 48, 48>> \o <<HexDigit(it.v \div 65536)>> \o Hex4(it.v % 65536)
 ItemValue(it, bytes) == CASE it.k = "c" -> (IF bytes THEN Utf8(it.v) ELSE <<it.v>>)
                           [] it.k = "s" -> <<SimpleEsc(it.v)>>
+                          [] it.k = "w" -> Words[it.v]
                           [] OTHER -> <<it.v>>
 RECURSIVE Cat(_,_)
 Cat(s, f) == IF s = <<>> THEN <<>> ELSE (IF f = "t" THEN ItemText(s[1]) ELSE IF f = "vb" THEN ItemValue(s[1], TRUE) ELSE ItemValue(s[1], FALSE)) \o Cat(Tail(s), f)
@@ -45,7 +50,7 @@ Valid(st, its) == \A j \in 1..Len(its) :
    LET it == its[j] IN it.k = "c" =>
      /\ (it.v = QuoteChar(st) => Triple(st) /\ j > 1 /\ j < Len(its) /\ ~IsPlain(its, j - 1, it.v) /\ ~IsPlain(its, j + 1, it.v))
      /\ (it.v \in {LF, CR} => Triple(st))          \* a line break (LF, CR, CR LF) may stand in a triple-quoted literal only, and is kept as written
-     /\ (it.v = BS => st.r /\ j < Len(its) /\ its[j + 1].k = "c" /\ its[j + 1].v \notin {DQ, SQ, BS})
+     /\ (it.v = BS => st.r /\ j < Len(its) /\ (its[j + 1].k = "w" \/ (its[j + 1].k = "c" /\ its[j + 1].v \notin {DQ, SQ, BS})))
 Mk5(st, its) == [style |-> st, items |-> its]
 Init == /\ style \in STYLES /\ items = <<>> /\ valid = TRUE /\ text = Text(style, <<>>) /\ exp = Value(style, <<>>)
 Next == /\ Len(items) < LEN /\ \E it \in Alphabet(style) : items' = Append(items, it)
@@ -53,6 +58,13 @@ Next == /\ Len(items) < LEN /\ \E it \in Alphabet(style) : items' = Append(items
 Spec == Init /\ [][Next]_vars
 DecodeAgrees == valid => DecodeLiteral(text) = exp
 \* encoding then decoding returns the original: the value never depends on the chosen escape form
+\* a literal has no length limit, and its value is the concatenation of its items' values: items that do not interact with their
+\* neighbours (no quote, backslash or line break written plainly) can be repeated any number of times -- the harness replays such
+\* states repeated to 600 and 5000 characters
+Free(its) == \A j \in 1..Len(its) : its[j].k = "c" => its[j].v \notin {DQ, SQ, BS, LF, CR}
+Homomorphic == (valid /\ Free(items)) => /\ Valid(style, items \o items)
+                                         /\ Value(style, items \o items).v = exp.v \o exp.v
+                                         /\ Text(style, items \o items) = SubSeq(text, 1, Len(text) - Len(Quote(style))) \o Cat(items, "t") \o Quote(style)
 FormIndependent == valid => \A j \in 1..Len(items) :
      (items[j].k \in {"x", "o"} /\ ~style.b /\ ~style.r /\ items[j].v \notin {BS, DQ, SQ, LF})
         => Value(style, [items EXCEPT ![j] = C(items[j].v)]) = exp
